@@ -39,12 +39,11 @@ M = [
     ('hashtbl-put-replace-frees-before-alloc-check', 'src/containers/qhashtbl.c', "    char *dupname = strdup(name);\n    void *dupdata = malloc(size);\n    if (dupname == NULL || dupdata == NULL) {", "    char *dupname = strdup(name);\n    void *dupdata = malloc(size);\n    if (obj != NULL && dupdata == NULL) { free(obj->data); obj->data = NULL; obj->size = 0; }\n    if (dupname == NULL || dupdata == NULL) {", ['C15']),
     ('base64-padding-for-two-byte-tail', 'src/utilities/qencode.c', "                (nIdxOfThree >= 1) ?\n                        B64CHARTBL[(((szIn[1] & 0x0F) << 2)", "                (nIdxOfThree >= 2) ?\n                        B64CHARTBL[(((szIn[1] & 0x0F) << 2)", ['C16']),
     ('url-plus-literal', 'src/utilities/qencode.c', "        00 , 0 , 0 , 0 , 0 , 0 , 0 , 0 , 0 , 0 , 0 , 0 , 0 ,'-','.','/', // 20-2F", "        00 , 0 , 0 , 0 , 0 , 0 , 0 , 0 , 0 , 0 , 0 ,'+', 0 ,'-','.','/', // 20-2F", ['C16']),
-    ('hex-decode-uppercase-table', 'src/utilities/qencode.c', "        0, 10, 11, 12, 13, 14, 15,  0,  0,  0,  0,  0,  0,  0,  0,  0, // 40-4f", "        0, 10, 11, 12, 13, 14,  0,  0,  0,  0,  0,  0,  0,  0,  0,  0, // 40-4f", ['C16']),
+    ('hex-decode-uppercase-table', 'src/utilities/qencode.c', "        0, 10, 11, 12, 13, 14, 15,  0,  0,  0,  0,  0,  0,  0,  0,  0, // 40-4F", "        0, 10, 11, 12, 13, 14,  0,  0,  0,  0,  0,  0,  0,  0,  0,  0, // 40-4F", ['C16']),
     ('url-decode-percent-unchecked', 'src/utilities/qencode.c', "                if (isxdigit((unsigned char) *(pEncPt + 1))\n                        && isxdigit((unsigned char) *(pEncPt + 2))) {", "                if (1) {", ['C17']),
     ('base64-decode-table-overrun', 'src/utilities/qencode.c', "        char cByte = B64MAPTBL[(unsigned char) (*pEncPt)];", "        char cByte = B64MAPTBL[(unsigned char) (*pEncPt) + ((unsigned char) (*pEncPt) == 0xFF ? 4 : 0)];", ['C17']),
     ('murmur32-tail-byte-order', 'src/utilities/qhash.c', "            k ^= tail[2] << 16;\n        case 2:\n            k ^= tail[1] << 8;", "            k ^= tail[2] << 8;\n        case 2:\n            k ^= tail[1] << 16;", ['C18']),
     ('fnv64-wrong-shift', 'src/utilities/qhash.c', "        h += (h << 1) + (h << 4) + (h << 5) +\n        (h << 7) + (h << 8) + (h << 40);", "        h += (h << 1) + (h << 4) + (h << 5) +\n        (h << 7) + (h << 8) + (h << 41);", ['C18']),
-    ('md5-file-short-read-of-last-block', 'src/utilities/qhash.c', "            nread = read(fd, buf, toread);", "            nread = read(fd, buf, (toread > 1 && toread == 32768) ? toread - 1 : toread);", []),
     ('trim-tail-misses-cr', 'src/utilities/qstring.c', "                    && (*se == ' ' || *se == '\\t' || *se == '\\r' || *se == '\\n');\n            se--)\n        ;\n    se++;\n    *se = '\\0';\n\n    if (ss > str) {", "                    && (*se == ' ' || *se == '\\t' || *se == '\\n');\n            se--)\n        ;\n    se++;\n    *se = '\\0';\n\n    if (ss > str) {", ['C19']),
     ('replace-bound-one-short', 'src/utilities/qstring.c', "            maxstrlen = ((strlen(srcstr) / strlen(tokstr)) * strlen(word))\n                    + (strlen(srcstr) % strlen(tokstr));", "            maxstrlen = ((strlen(srcstr) / strlen(tokstr)) * strlen(word));", ['C19']),
     ('strcpy-clamp-off-by-one', 'src/utilities/qstring.c', "    if (nbytes >= size)\n        nbytes = size - 1;", "    if (nbytes > size)\n        nbytes = size - 1;", ['C19']),
